@@ -100,6 +100,14 @@ CHECKS = {
     note='Trusted: clang lowering (validated per run), irsym (OpenMP sequential model, writer/filesystem stubs, divide_cell contract stub), exact polynomial arithmetic, z3. On the unchanged tree no decision mentions t, so the solver has nothing to split (0 queries); a seeded absolute-position dependence produces t-dependent indices that the solver cannot bound and the native differential confirms.',
     technique='symbolic execution of LLVM IR with exact polynomial normal form in the symbolic translation; z3 for residual t-dependent decisions; native differential replay',
     design='3/C14'),
+ 'C17': dict(
+    level='other',
+    text=('Post-tokenisation step only: mesh_reader::get_cell_mesh runs from the LLVM IR on connectivity lists whose every entry is symbolic (0..2^31-1, what std::stoi delivers for [0-9]+ tokens), for all list lengths 0..6 (8 thorough), one and two (three) cells, '
+          'point arrays of 0-4 points. irsym checks every access; accesses through symbolic offsets and into allocations of symbolic size are decided by z3 under the path condition. Per path: return with in-range local ids and copied existing points, or an exception '
+          'derived from std::exception; no access outside a live object; all paths terminate. Memory reports are replayed natively under valgrind at the solver model. Byte-level parsing (regex, getline, stoi/strtod, tinyxml2), get_cell_types and the initializer cross-checks are not encoded.'),
+    note='Trusted: clang lowering (validated per run), irsym memory model incl. symbolic addresses/allocation sizes, libstdc++ containers executed from the IR (red-black tree helpers re-implemented in shims.cpp), z3; valgrind as replay oracle only.',
+    technique='symbolic execution of LLVM IR with solver-decided bounds of symbolic offsets and allocation sizes (z3, integer arithmetic); native replay under valgrind',
+    design='3/C17'),
  'C18': dict(
     level='other',
     text=('The real parameter_reader (read_numerical_parameters, read_biomechanical_parameters, read_cell_type_parameters, read_face_type_parameters, get_string_value, lower_string, std::stod/stoi wrappers) runs from the LLVM IR '
